@@ -201,6 +201,7 @@ public:
         for (;;) {
             desired = expected;
             desired.inc_vinsert_delete();
+            YK_VP(k_cas, this, 8, 0);
             if (body_.compare_exchange_weak(expected, desired,
                                             std::memory_order_acq_rel,
                                             std::memory_order_acquire)) {
@@ -216,6 +217,7 @@ public:
         for (;;) {
             desired = expected;
             desired.set_border(tf);
+            YK_VP(k_cas, this, 8, 0);
             if (body_.compare_exchange_weak(expected, desired,
                                             std::memory_order_acq_rel,
                                             std::memory_order_acquire)) {
@@ -231,6 +233,7 @@ public:
         for (;;) {
             desired = expected;
             desired.set_deleted(tf);
+            YK_VP(k_cas, this, 8, 0);
             if (body_.compare_exchange_weak(expected, desired,
                                             std::memory_order_acq_rel,
                                             std::memory_order_acquire)) {
@@ -246,6 +249,7 @@ public:
         for (;;) {
             desired = expected;
             desired.set_inserting_deleting(tf);
+            YK_VP(k_cas, this, 8, 0);
             if (body_.compare_exchange_weak(expected, desired,
                                             std::memory_order_acq_rel,
                                             std::memory_order_acquire)) {
@@ -261,6 +265,7 @@ public:
         for (;;) {
             desired = expected;
             desired.set_root(tf);
+            YK_VP(k_cas, this, 8, 0);
             if (body_.compare_exchange_weak(expected, desired,
                                             std::memory_order_acq_rel,
                                             std::memory_order_acquire)) {
@@ -276,6 +281,7 @@ public:
         for (;;) {
             desired = expected;
             desired.set_splitting(tf);
+            YK_VP(k_cas, this, 8, 0);
             if (body_.compare_exchange_weak(expected, desired,
                                             std::memory_order_acq_rel,
                                             std::memory_order_acquire)) {
@@ -308,6 +314,7 @@ public:
                 }
                 desired = expected;
                 desired.set_locked(true);
+                YK_VP(k_cas, this, 8, 0);
                 if (body_.compare_exchange_weak(expected, desired,
                                                 std::memory_order_acq_rel,
                                                 std::memory_order_acquire)) {
@@ -387,6 +394,7 @@ public:
                 desired.set_splitting(false);
             }
             desired.set_locked(false);
+            YK_VP(k_cas, this, 8, 0);
             if (body_.compare_exchange_weak(expected, desired,
                                             std::memory_order_acq_rel,
                                             std::memory_order_acquire)) {
